@@ -182,7 +182,8 @@ def t_relcp(model_key, layout, kmode, vary):
     prove("attrs-restored:range_type", fitter.range_type == "relative cp")
     prove("attrs-restored:range_x", all_of([same(fitter.range_x[0], a), same(fitter.range_x[1], b)]))
     prove("attrs-restored:optimal_fit_edelta", fitter.optimal_fit_edelta is False)
-    prove("settings-kept", fp["range_type"] == "relative cp" and fp["range_x"][0] is a and fp["range_x"][1] is b)
+    prove("settings-kept", all_of([fp["range_type"] == "relative cp", same(fp["range_x"][0], a),
+                                   same(fp["range_x"][1], b)]))
     passes = fitter.passes
     prove("four-passes", len(passes) == 4)
     # pass 0: whole segment
